@@ -166,7 +166,8 @@ impl Known {
         let oracle = viol["oracle"].as_str().unwrap_or("");
         let tag = viol["tag"].as_str().unwrap_or("");
         self.open.iter().find(|f| {
-            let oracle_ok = f["oracle"].as_str() == Some(oracle) || f["oracles"].as_array().map(|a| a.iter().any(|o| o.as_str() == Some(oracle))).unwrap_or(false);
+            // "*" = any oracle: the finding is identified by its cause class (tag suffix) alone
+            let oracle_ok = f["oracle"].as_str() == Some(oracle) || f["oracles"].as_array().map(|a| a.iter().any(|o| o.as_str() == Some(oracle) || o.as_str() == Some("*"))).unwrap_or(false);
             let tag_ok = f["tag"].as_str() == Some(tag) || f["tag_suffix"].as_str().map(|suffix| !suffix.is_empty() && tag.ends_with(suffix)).unwrap_or(false);
             f["property"].as_str() == Some(prop) && oracle_ok && tag_ok
         })
